@@ -9,6 +9,7 @@ import (
 )
 
 func init() {
+	env.Register("C11_NextViewPrepare", C11_NextViewPrepare)
 	env.Register("C11_Vote", C11_Vote)
 	env.Register("C11_NewView", C11_NewView)
 	env.Register("C11_PrepareCommit", C11_PrepareCommit)
@@ -171,4 +172,67 @@ func C11_PrepareCommit() {
 			env.Reach("C11.C.delivered")
 		}
 	}
+}
+
+// C11_NextViewPrepare: every correct member p other than the new leader adopts view 1 through an honest
+// NEW_VIEW and emits its PREPARE for view 1; a correct peer r that is still in view 0 (its NEW_VIEW is
+// delayed) or already in view 1 must count it. Afterwards r adopts the view, prepares, times out to view 2:
+// the VIEW_CHANGE it emits (with the proof built from what it stored) must be counted by the correct
+// leader of view 2.
+func C11_NextViewPrepare() {
+	pIdx := env.Param("p") // producer: 0, 2 or 3 (member 1 leads view 1)
+	rIdx := env.Param("r") // consumer: another member of {0,2,3}
+	wd := newWorld(pIdx, equalWeights(4))
+	p := wd.n
+	blk := &stub.Block{H: 1, Tag: 0x43, ProposalOK: true}
+	var votes []*interfaces.ViewChangeMessage
+	for _, i := range []int{0, 2, 3} {
+		votes = append(votes, wd.net.vcm(i, 1, 1, nil))
+	}
+	nv := wd.net.nvm(1, 1, 1, votes, blk).ToConsensusRawMessage()
+	out0 := len(p.comm.Out)
+	p.timeout()
+	p.deliver(nv)
+	var prep *stub.Sent
+	for _, s := range p.comm.Out[out0:] {
+		if pm, ok := s.Msg.(*interfaces.PrepareMessage); ok && pm.View() == 1 {
+			prep = s
+		}
+	}
+	env.Assert("C11.setup.prepare_emitted", prep != nil)
+	if prep == nil {
+		return
+	}
+	r := wd.peer(rIdx)
+	early := env.NondetBool("prepare_before_new_view")
+	if !early {
+		r.timeout()
+		r.deliver(nv)
+	}
+	s0 := len(r.st.Events)
+	r.deliver(prep.Raw)
+	env.Assert("C11.P.counted", storedBy(r, s0, "P", p.me))
+	if early {
+		env.Reach("C11.P.future_view")
+		r.timeout()
+		r.deliver(nv)
+	}
+	// r now holds the proposal of view 1, its own PREPARE and p's: with the leader that is a quorum
+	from := len(r.comm.Out)
+	r.timeout() // to view 2, led by member 2
+	if rIdx == 2 {
+		return // r is itself the next leader: its vote is not sent
+	}
+	vote := lastVote(r, from)
+	env.Assert("C11.VC.emitted", vote != nil)
+	if vote == nil {
+		return
+	}
+	l2 := wd.peer(2)
+	l2.timeout()
+	l2.timeout()
+	s1 := len(l2.st.Events)
+	l2.deliver(vote.ToConsensusRawMessage())
+	env.Assert("C11.VC.counted", storedBy(l2, s1, "VC", r.me))
+	env.Reach("C11.VC.after_next_view_prepare")
 }
